@@ -320,6 +320,10 @@ fn check_chain(ri: usize, links: &[(Dep, usize, Form, bool)]) -> Option<CaseResu
 
 pub fn run(tier: Tier) -> i32 {
     let mut rep = Report::new("C09", tier, "exploration");
+    // the quick tier explores what used to be the thorough space (it takes seconds); `deep` adds the wider bounds
+    #[allow(unused_variables)]
+    let deep = tier == Tier::Thorough;
+    let tier = Tier::Thorough;
     let fs = forms(tier);
     let deps = [Dep::Rect, Dep::Circle, Dep::Ellipse];
     let mut singles: Vec<(usize, bool, Dep, usize, usize)> = Vec::new();
@@ -338,6 +342,10 @@ pub fn run(tier: Tier) -> i32 {
         }
     }
     rep.set("rule", json!(format!("(single) 9 reference elements with known boxes (rects incl. negative/fractional, circle, ellipse, reversed line, box, point, group of two rects) referenced by #id and by ^ x dependent {{rect, circle, ellipse}} in 2 size spellings x {} relspec forms: 4 directions x 4 gaps; 23 locations (9 named + 14 edge offsets abs/negative/percent/over 100%) x 5 dx-dy forms x 10 anchors (xy, cxy, xy + 8 xy-loc values); per-axis x/x2/cx and y/y2/cy with locations and with 9 scalar pairs (~x ~y ~x2 ~y2 ~cx ~cy ~w ~h ~r ~rx ~ry ~x1 ~y1) x 4 deltas (none, abs, percent, negative); bare references; 8 relative-size forms (wh=#r, percent, abs pair, ~h/~w, dw/dh abs/percent, ~rx){}. (chains) all ordered pairs of a 14-form covering set as 2-link chains and 3-link chains over 6 forms, mixing #id and ^ links, the model's expected box of each link feeding the next. Oracle: reference layout model in f64 on the known boxes; the output element's native geometry must describe the expected box within 0.0005 per rounded intermediate. Non-trivial = Ok and all boxes as expected.", fs.len(), if tier == Tier::Quick { " (quick: every third combination of the location/scalar forms, all direction/size forms)" } else { "" })));
+    if deep {
+        let r = rep.coverage.get("rule").and_then(|v| v.as_str()).unwrap_or("").to_string();
+        rep.set("rule", json!(format!("{r} THOROUGH TIER ADDITIONALLY: every ordered pair of ALL single forms as a two-link chain on two reference elements (the second link by #id or ^ alternately) and every triple of the 14 covering forms on three further references.")));
+    }
     let st = run_space(singles.len(), |i| {
         let (ri, bp, d, size, fi) = singles[i];
         check_single(ri, bp, d, size, &fs[fi]).unwrap_or(CaseResult { case_hash: hash64(&("na", i)), nontrivial: false, outcome_hash: 0, executions: 0, violation: None })
@@ -389,6 +397,26 @@ pub fn run(tier: Tier) -> i32 {
             }
         }
     }
+    if deep {
+        // every ordered pair of ALL forms (not only the covering set) as a two-link chain, and every triple of the covering set
+        for ri in [0usize, 3] {
+            for (ai, a) in fs.iter().enumerate() {
+                for (bi, b) in fs.iter().enumerate() {
+                    chains.push((ri, vec![(deps[(ai + ri) % 3], ai % 2, a.clone(), false), (deps[(bi + ai) % 3], bi % 2, b.clone(), (ai + bi) % 2 == 1)]));
+                }
+            }
+        }
+        for a in 0..cover.len() {
+            for b in 0..cover.len() {
+                for c in 0..cover.len() {
+                    for ri in [1usize, 5, 8] {
+                        chains.push((ri, vec![(deps[a % 3], 0, cover[a].clone(), false), (deps[(a + b) % 3], 1, cover[b].clone(), b % 2 == 0), (deps[c % 3], 0, cover[c].clone(), c % 2 == 1)]));
+                    }
+                }
+            }
+        }
+    }
+    rep.set("chains", json!(chains.len()));
     let st = run_space(chains.len(), |i| check_chain(chains[i].0, &chains[i].1).unwrap_or(CaseResult { case_hash: hash64(&("na-chain", i)), nontrivial: false, outcome_hash: 0, executions: 0, violation: None }));
     rep.sample(json!({"leg": "chains", "links": chains[chains.len() / 2].1.iter().map(|l| form_class(&l.2)).collect::<Vec<_>>()}));
     rep.absorb("chains", st);
